@@ -165,6 +165,125 @@ func runC15(c *ctx) {
 			emitC15(c, size, bad, "illegal", false)
 		}
 	}
+	// ORBIT games: games that RE-ENTER symmetry.  Round by round the two players fill one orbit each of a chosen symmetry g
+	// (a quarter turn: 8 plies per round; a half turn or a reflection: 4 plies): after every round the position is invariant
+	// under g again, so Canonical has to pick among still-symmetric replays once more - several times per game, and with the same
+	// transform as before.  A few free moves follow.  Every game is also given in all eight orientations (the first pick differs).
+	for g := 0; g < 40*c.scale; g++ {
+		size := 4 + r.Intn(5)
+		if size > 8 {
+			size = 8
+		}
+		gen := []int{6, 7, 5, 1, 2, 3, 4}[r.Intn(7)] // rotate CW, CCW, 180, flips, diagonals
+		if g%2 == 0 {
+			gen = 6 + r.Intn(2)
+		}
+		orbit := func(x, y int) [][2]int {
+			var o [][2]int
+			cx, cy := x, y
+			for {
+				o = append(o, [2]int{cx, cy})
+				cx, cy = symMap(gen, size, cx, cy)
+				if cx == x && cy == y {
+					break
+				}
+			}
+			return o
+		}
+		used := map[[2]int]bool{}
+		pick := func() [][2]int {
+			for t := 0; t < 200; t++ {
+				x, y := r.Intn(size), r.Intn(size)
+				o := orbit(x, y)
+				want := 2
+				if gen >= 6 {
+					want = 4
+				}
+				if len(o) != want {
+					continue
+				}
+				ok := true
+				for _, q := range o {
+					if used[q] {
+						ok = false
+					}
+				}
+				if !ok {
+					continue
+				}
+				for _, q := range o {
+					used[q] = true
+				}
+				return o
+			}
+			return nil
+		}
+		var ms []tak.Move
+		rounds := 1 + r.Intn(3)
+		for rd := 0; rd < rounds; rd++ {
+			oa, ob := pick(), pick()
+			if oa == nil || ob == nil {
+				break
+			}
+			kind := tak.PlaceFlat
+			if rd > 0 && r.Intn(3) == 0 {
+				kind = tak.PlaceStanding
+			}
+			// first round: the two opening stones have swapped colours, so White's first stone starts Black's orbit:
+			// ply 0 oa[0] (a black stone), ply 1 ob[0] (a white stone), then White continues ob, Black continues oa
+			if rd == 0 {
+				ms = append(ms, tak.Move{X: int8(oa[0][0]), Y: int8(oa[0][1]), Type: tak.PlaceFlat}, tak.Move{X: int8(ob[0][0]), Y: int8(ob[0][1]), Type: tak.PlaceFlat})
+				for k := 1; k < len(oa); k++ {
+					ms = append(ms, tak.Move{X: int8(ob[k][0]), Y: int8(ob[k][1]), Type: tak.PlaceFlat}, tak.Move{X: int8(oa[k][0]), Y: int8(oa[k][1]), Type: tak.PlaceFlat})
+				}
+			} else {
+				for k := 0; k < len(oa); k++ {
+					ms = append(ms, tak.Move{X: int8(oa[k][0]), Y: int8(oa[k][1]), Type: kind}, tak.Move{X: int8(ob[k][0]), Y: int8(ob[k][1]), Type: kind})
+				}
+			}
+		}
+		// replay: stop at the first illegal move or the end of the game; then free moves
+		p := tak.New(tak.Config{Size: size})
+		var game []tak.Move
+		for _, m := range ms {
+			if over, _ := p.GameOver(); over {
+				break
+			}
+			q, err := p.Move(m)
+			if err != nil {
+				break
+			}
+			p = q
+			game = append(game, m)
+		}
+		for t := 1 + r.Intn(4); t > 0; t-- {
+			if over, _ := p.GameOver(); over {
+				break
+			}
+			legal := legalMoves(p)
+			if len(legal) == 0 {
+				break
+			}
+			m := legal[r.Intn(len(legal))]
+			q, err := p.Move(m)
+			if err != nil {
+				break
+			}
+			p = q
+			game = append(game, m)
+		}
+		if len(game) < 5 {
+			continue
+		}
+		c.stat("orbit_games", 1)
+		for i := 0; i < 8; i++ {
+			img := make([]tak.Move, len(game))
+			for k, m := range game {
+				img[k] = symMove(i, size, m)
+			}
+			emitC15(c, size, img, "orbit", true)
+		}
+	}
 	// directed search: positions that look symmetric from above (tops and heights) under some symmetry while the
 	// captives differ only arise from stacking and are rare (about 1 game in 400); hunt for them with cheap
 	// playouts and emit the game up to there plus a few continuations
